@@ -16,17 +16,32 @@ class ReadBudgetExceeded(BaseException):
     in the code under test can swallow it."""
 
 
+STALL_LIMIT = 20000
+
+
 class Budget:
-    __slots__ = ("limit", "used")
+    """Deterministic clock for "terminates": total reader calls, plus a stall detector (consecutive reads that
+    return nothing - the signature of a loop waiting at EOF for a byte that never comes)."""
+
+    __slots__ = ("limit", "used", "stall")
 
     def __init__(self, limit: int):
         self.limit = limit
         self.used = 0
+        self.stall = 0
 
     def tick(self) -> None:
         self.used += 1
         if self.used > self.limit:
             raise ReadBudgetExceeded(f"reader-call budget of {self.limit} exhausted")
+
+    def read_result(self, n_requested, data) -> None:
+        if data or n_requested == 0:
+            self.stall = 0
+        else:
+            self.stall += 1
+            if self.stall > STALL_LIMIT:
+                raise ReadBudgetExceeded(f"{STALL_LIMIT} consecutive empty reads: loop waiting at EOF")
 
 
 _NO_BUDGET = Budget(1 << 62)
@@ -49,7 +64,9 @@ class SimFile(_real_io.BytesIO):
         self._budget.tick()
         if self._trace is not None:
             self._trace.append(("r", super().tell(), n))
-        return super().read(n)
+        data = super().read(n)
+        self._budget.read_result(n, data)
+        return data
 
     def readinto(self, b):
         self._budget.tick()
@@ -71,7 +88,9 @@ class _CountingBytesIO(_real_io.BytesIO):
 
     def read(self, n=-1):
         _current_budget.tick()
-        return super().read(n)
+        data = super().read(n)
+        _current_budget.read_result(n, data)
+        return data
 
     def readinto(self, b):
         _current_budget.tick()
